@@ -1,5 +1,5 @@
 """C22 — per-step drive values are the interpolated Pulser samples; amplitude never negative."""
-from ..rules import adapter
+from ..rules import kernels, adapter
 
 META = {
     "title": "Per-step drive values are the interpolated Pulser samples",
@@ -25,3 +25,4 @@ def check(ctx):
     adapter.clamp(ctx)
     ctx.floor("STEP-adapter", 5)
     ctx.floor("CLAMP", 2)
+    kernels.pchip_evaluation(ctx)
